@@ -7,5 +7,5 @@ CONSTANTS
   UrgentAsync = FALSE
   RecLimit = 2
 VIEW View
-INVARIANTS TypeOK C01 C02 C10 C16 PosConsistent
+INVARIANTS TypeOK C01 C02 C03 C10 C16 PosConsistent
 CHECK_DEADLOCK FALSE
